@@ -11,6 +11,17 @@ from sim.world import BACKENDS
 
 TOL = 2000  # the property's own "about 2 ms", in microseconds
 H24 = 86_400_000_000
+HOUR = 3_600_000_000
+
+
+def long_events(r, steps, p=0.1):
+    """Give a fraction of the generated events durations of hours (up to and just beyond 24 h)."""
+    for s in steps:
+        evs = [s["ev"]] if "ev" in s else [it["ev"] for it in s.get("evs", [])]
+        for E in evs:
+            if r.random() < p:
+                E["dur"] = r.choice([HOUR, 2 * HOUR, 5 * HOUR, 23 * HOUR + 59 * 60_000_000, H24, H24 + HOUR])
+    return steps
 DELTAS = [0, 0, 1, -1, 999, -999, 1000, -1000, 1999, -1999, 2001, -2001, 3000, -3000, 500_000, -500_000]
 
 
@@ -25,10 +36,13 @@ class WindowReader(actors.Party):
         r, lat = self.r, self.cfg["lat"]
         # snapped near event starts/ends (lattice points), sometimes far away
         c = r.random()
-        if c < 0.8:
+        if c < 0.7:
             p = lat["base"] + lat["step"] * r.randrange(-1, lat["n"] + 6)
-        else:
+        elif c < 0.85:
             p = lat["base"] + r.randrange(-3 * lat["step"], (lat["n"] + 8) * lat["step"])
+        else:
+            # hours away from the lattice: only long events reach here
+            p = lat["base"] + lat["step"] * r.randrange(0, lat["n"] + 1) + r.choice([1, 2, 6, 23, 24, 25]) * HOUR
         return p + r.choice(DELTAS)
 
     def step(self):
@@ -71,7 +85,7 @@ class C03(Check):
         "read/count executed on a bucket with >=2 events where the window splits the bucket (some event must be in and "
         "some must be out) ; distinct = distinct (backend, op-kind sequence)"
     )
-    expected_probes = ["window_splits_bucket", "edge_within_tol", "nested_events", "limit_cuts_window", "limit_cuts_tie", "zero_width_window", "open_start", "open_end", "clipped_event_returned", "count_checked", "restart_clean", "straddles_start"]
+    expected_probes = ["window_splits_bucket", "edge_within_tol", "nested_events", "limit_cuts_window", "limit_cuts_tie", "zero_width_window", "open_start", "open_end", "clipped_event_returned", "count_checked", "restart_clean", "straddles_start", "long_event_straddles_start_by_hours"]
     assumptions = ["the unwindowed read get(limit=-1) is a faithful listing of the bucket (C02 decides that)", "window start <= end; must-include only for events up to 24 h long, as the property states"]
 
     def gen(self, seed, idx, tier):
@@ -98,6 +112,8 @@ class C03(Check):
         weights = {"importer": 1.0, "editor": 0.8, "wreader": 3.0, "operator": 0.1}
         nsteps = r.choice([3, 6, 10, 20, 40])
         steps += actors.schedule(rs["sched"], parties, weights, nsteps)
+        if r.random() < 0.5:
+            long_events(rs["long"], steps)
         return {"backend": backend, "steps": steps, "lat": lat}
 
     def start(self, world, run):
@@ -156,6 +172,8 @@ class C03(Check):
             self._nontrivial = True
         if ws is not None and any(t[1] < ws - TOL and t[1] + t[2] > ws + TOL for t in stored):
             pr["straddles_start"] += 1
+        if ws is not None and any(t[1] < ws - HOUR and t[1] + t[2] > ws + TOL and t[2] <= H24 for t in stored):
+            pr["long_event_straddles_start_by_hours"] += 1
         for t in stored:
             if any(u[1] < t[1] and u[1] + u[2] > t[1] + t[2] for u in stored):
                 pr["nested_events"] += 1
